@@ -44,11 +44,12 @@ def run(prog, rep):
     if dd is None:
         raise AnalysisError('BaseSliver._dict_diff vanished')
     keys = {}
+    dd_env = local_env(dd)
     for n in ast.walk(dd):
         if isinstance(n, ast.Dict):
             for k, v in zip(n.keys, n.values):
                 if isinstance(k, ast.Constant) and k.value in ('added', 'removed'):
-                    keys[k.value] = ast.unparse(alpha(v))
+                    keys[k.value] = ast.unparse(alpha(expand(v, dd_env)))
     rep.instance('R3', f'_dict_diff: added={keys.get("added", "?")[:60]} removed={keys.get("removed", "?")[:60]}')
     a, b = [x.arg for x in dd.args.args][:2]
     want_added = f'{{_c0: {b}[_c0] for _c0 in set({b}) - set({a})}}'
@@ -275,6 +276,35 @@ def run(prog, rep):
                 ch = attr_chain(n.value)
                 if ch and ch[0] == 'WhatsModifiedFlag':
                     produced.add(ch[-1])
+
+    # R7: "nothing changed" is decided on every collection that goes into the result
+    rep.rule('R7', 'the test that decides between a diff and None looks at every collection the diff is built from', floor=3)
+    for spec in DIFF_CLASSES:
+        cls = prog.cls(spec)
+        fn = inline(prog, cls, cls.methods['diff'], exclude=('_dict_diff', '_dict_common'))
+        fenv7 = local_env(fn)
+        for r_ in [x for x in walk_no_nested(fn) if isinstance(x, ast.Return) and isinstance(x.value, ast.Call) and call_name(x.value) == 'TopologyDiff']:
+            parts = set()
+            for c_ in ast.walk(r_.value):
+                if isinstance(c_, ast.Call) and call_name(c_) in ('TopologyDiffTuple', 'TopologyDiffModifiedTuple'):
+                    for a_ in list(c_.args) + [k.value for k in c_.keywords]:
+                        ae = a_
+                        if isinstance(ae, ast.Name):
+                            parts.add(ae.id)
+            _, conds_ = _enclosing(r_, fn)
+            tested = set()
+            for c_ in conds_:
+                for x in ast.walk(expand(c_, {k: v for k, v in fenv7.items() if k not in parts})):
+                    if isinstance(x, ast.Name):
+                        tested.add(x.id)
+            rep.instance('R7', f'{cls.name}.diff: result built from {sorted(parts)}; decision looks at {sorted(tested & parts)}')
+            if not conds_:
+                continue        # unconditional: a (possibly empty) diff is always returned
+            for nm in sorted(parts - tested):
+                rep.violation('R7', loc(cls.module, r_), f'{cls.name}.diff', f'`{nm}` is not looked at when deciding whether anything changed',
+                              f'the diff is built from `{nm}` (among others), but the condition that chooses between returning a diff and '
+                              f'returning None never looks at it: when `{nm}` is the only non-empty part, diff() answers None - "no difference" - '
+                              f'for two slivers that differ')
 
     # R6: the SUB_INTERFACES flag
     rep.rule('R6', 'SUB_INTERFACES is raised for exactly the elements that can have sub-interfaces, and only for changes of sub-interfaces', floor=2)
